@@ -122,7 +122,7 @@ func c07(c *ctx) {
 		cases = append(cases, cs)
 	}
 	cfgs := []config{{name: "ast", v: vPlain, memo: true}, {name: "noast", v: vNoast}, {name: "noastinline", v: vNI}, {name: "noastswitch", v: vNS}, {name: "noastboth", v: vNB}}
-	f := &family{c: c, tag: "c07", configs: cfgs, noexec: true, history: []string{"noast", "noastboth"}, retries: []string{"ast", "noast", "noastswitch"}}
+	f := &family{c: c, tag: "c07", configs: cfgs, noexec: true, history: []string{"noast", "noastboth"}, retries: []string{"ast", "noast", "noastswitch"}, reinit: true}
 	f.prepareReplay = func(cs *gcase) {
 		// rebuild which state changes are capture-completion / end probes from the witness text (textual order = id)
 		info := &c07info{capState: map[int]bool{}, capAct: map[int]bool{}, endState: -1}
